@@ -201,6 +201,164 @@ func runC20(c *Ctx) {
 		}
 	}
 
+	// ------------------------------------------------------------ L7
+	c.Rule("C20.L7", "GUARDED-BY", "while TxPool.mu is held only in shared mode (RLock) nothing guarded is modified: no store / map update / delete on a guarded index, and no call of a method that writes its receiver on an account list, sorted map, priced list, account set or nonce tracker (Flatten rebuilds its cache lazily — it is a write); functions that do such things, directly or through package-local callees, are called with the exclusive lock or none")
+	c.Min(5)
+	{
+		mutTypes := map[string]bool{"txList": true, "txSortedMap": true, "txPricedList": true, "accountSet": true, "txNoncer": true}
+		poolT := w.Named("core", "TxPool")
+		muF := w.Field("core", "TxPool", "mu")
+		isPoolMu := func(recv ssa.Value) bool {
+			if fa, ok := recv.(*ssa.FieldAddr); ok {
+				return fieldOfAddr(fa) == muF
+			}
+			return false
+		}
+		lockNamed := func(ci ssa.CallInstruction, names ...string) bool {
+			o := calleeObj(ci)
+			if o == nil || o.Pkg() == nil || o.Pkg().Path() != "sync" {
+				return false
+			}
+			for _, n := range names {
+				if o.Name() == n {
+					r := callRecv(ci)
+					return r != nil && isPoolMu(r)
+				}
+			}
+			return false
+		}
+		var pkgFns []*ssa.Function
+		for _, fn := range w.FuncsIn("core") {
+			if !strings.HasSuffix(w.fileOf(fn.Pos()), "_test.go") {
+				pkgFns = append(pkgFns, fn)
+			}
+		}
+		// methods that write their own receiver (transitively through methods of the same receiver)
+		writesRecv := map[*ssa.Function]bool{}
+		for changed := true; changed; {
+			changed = false
+			for _, fn := range pkgFns {
+				if writesRecv[fn] || fn.Signature.Recv() == nil || len(fn.Params) == 0 || !mutTypes[ownerName(fn.Params[0].Type())] {
+					continue
+				}
+				recv := ssa.Value(fn.Params[0])
+				hit := false
+				// a method that takes a mutex of its own receiver is self-locking (txNoncer)
+				selfLocking := false
+				for _, ci := range callInstrs(fn) {
+					if o := calleeObj(ci); o != nil && o.Pkg() != nil && o.Pkg().Path() == "sync" && o.Name() == "Lock" {
+						if fa, ok := callRecv(ci).(*ssa.FieldAddr); ok && fa.X == recv {
+							selfLocking = true
+						}
+					}
+				}
+				if selfLocking {
+					continue
+				}
+				for _, fw := range fieldWrites(fn) {
+					if derivesFrom(fw.Base, func(v ssa.Value) bool { return v == recv }) {
+						hit = true
+					}
+				}
+				for _, ci := range callInstrs(fn) {
+					if callee := staticCallee(ci); callee != nil && writesRecv[callee] {
+						if r := callRecv(ci); r != nil && derivesFrom(r, func(v ssa.Value) bool { return v == recv }) {
+							hit = true
+						}
+					}
+				}
+				if hit {
+					writesRecv[fn] = true
+					changed = true
+				}
+			}
+		}
+		// write-ish actions per function
+		type action struct {
+			instr ssa.Instruction
+			what  string
+		}
+		direct := map[*ssa.Function][]action{}
+		for _, fn := range pkgFns {
+			for _, fw := range fieldWrites(fn) {
+				if guarded[fw.Field.Name()] && ownerOfField(poolT.Underlying().(*types.Struct), fw.Field) && !isLocalAlloc(fw.Base) {
+					direct[fn] = append(direct[fn], action{fw.Instr, "writes TxPool." + fw.Field.Name()})
+				}
+			}
+			for _, ci := range callInstrs(fn) {
+				callee := staticCallee(ci)
+				if callee == nil || !writesRecv[callee] {
+					continue
+				}
+				r := callRecv(ci)
+				if r == nil || isLocalAlloc(r) {
+					continue
+				}
+				// the receiver comes out of a guarded index of the pool (or is the pool's own priced list / nonce tracker)
+				fromPool := derivesFrom(r, func(v ssa.Value) bool {
+					f, _ := loadedField(v)
+					return f != nil && guarded[f.Name()] && ownerOfField(poolT.Underlying().(*types.Struct), f)
+				})
+				if fromPool {
+					direct[fn] = append(direct[fn], action{ci, "calls " + fname(callee) + ", which writes its receiver"})
+				}
+			}
+		}
+		mutates := map[*ssa.Function]string{}
+		for fn, as := range direct {
+			if len(as) > 0 {
+				mutates[fn] = as[0].what + " at " + w.Pos(as[0].instr.Pos())
+			}
+		}
+		for changed := true; changed; {
+			changed = false
+			for _, fn := range pkgFns {
+				if mutates[fn] != "" {
+					continue
+				}
+				for _, ci := range callInstrs(fn) {
+					if callee := staticCallee(ci); callee != nil && mutates[callee] != "" && callee.Signature.Recv() != nil && ownerName(callee.Params[0].Type()) == "TxPool" {
+						mutates[fn] = "calls " + fname(callee) + " (which " + mutates[callee] + ")"
+						changed = true
+						break
+					}
+				}
+			}
+		}
+		nShared := 0
+		for _, fn := range pkgFns {
+			// shared-only state: RLock held and exclusive not held
+			rs := lockStates(fn, func(ci ssa.CallInstruction) bool { return lockNamed(ci, "RLock") }, func(ci ssa.CallInstruction) bool { return lockNamed(ci, "RUnlock") }, false)
+			anyShared := false
+			for _, held := range rs {
+				if held {
+					anyShared = true
+				}
+			}
+			if !anyShared {
+				continue
+			}
+			nShared++
+			c.sites++
+			c.sawFunc(fname(fn))
+			bad := ""
+			for _, a := range direct[fn] {
+				if rs[a.instr] {
+					bad = a.what + " at " + w.Pos(a.instr.Pos())
+				}
+			}
+			for _, ci := range callInstrs(fn) {
+				if callee := staticCallee(ci); callee != nil && mutates[callee] != "" && rs[ci] && callee.Signature.Recv() != nil && ownerName(callee.Params[0].Type()) == "TxPool" {
+					bad = "calls " + fname(callee) + " (which " + mutates[callee] + ") at " + w.Pos(ci.Pos())
+				}
+			}
+			c.Check(outerName(fname(fn))+"#shared-lock-is-read-only", fn.Pos(), bad == "", ifelse(bad == "", "nothing guarded is modified while the lock is held in shared mode", "holding TxPool.mu only in shared mode, this function "+bad+": two readers run it at once and race on the same storage (the lazily rebuilt sorted cache comes out partial, unsorted or duplicated)"))
+		}
+		if nShared < 4 {
+			c.Undecided("core.TxPool#shared-lock-users", 0, fmt.Sprintf("only %d functions take TxPool.mu in shared mode", nShared))
+		}
+	}
+
 	// ------------------------------------------------------------ L6
 	c.Rule("C20.L6", "ALWAYS-WITH", "wherever a transaction is taken out of an account's pending list by (*txList).Remove, the account's pending nonce is lowered (pendingNonces.setIfLower) on every path that follows the successful removal")
 	c.Min(1)
